@@ -91,6 +91,40 @@ def pattern_cases(c, d, n):
     c.cov["tools"].append({"tool": "hook:TestVerifPattern", "evaluations": n, "histograms": {"pattern": kinds}})
     c.cov["evaluations"] += n
     c.corr("Cli.compile_src / glob_matches / file_filter (glob patterns of --match / --include / --exclude) vs the real compilePattern (source of the regular expression it builds, and what Go's regexp matches) and fileFilter", d)
+    # a disagreement is searched for a failing input: the disagreeing pattern and paths become a scratch tree and an
+    # invocation of the built command, judged by the reference of the documented rules
+    exs = getattr(c, "corr_examples", None) or []
+    unh = lambda h: "" if h == "-" else bytes.fromhex(h).decode("utf-8", "replace")
+    for k, exm in enumerate(exs[:12]):
+        f = exm["case"].split("\t")
+        if f[0] == "glob":
+            opts = ["--exclude", "**", "--include", unh(f[1])]
+            paths = [unh(x) for x in f[2].split(",")]
+        else:
+            opts = []
+            for m in (f[1].split(",") if f[1] != "-" else []):
+                opts += ["--match", unh(m)]
+            for x in (f[2].split(",") if f[2] != "-" else []):
+                x = unh(x)
+                opts += ["--include" if x[0] == "+" else "--exclude", x[1:]]
+            paths = [unh(x) for x in f[3].split(",")]
+        tree, tops = {}, []
+        for q in paths:
+            comps = q.split("/")
+            if not q or any(cc in ("", ".", "..") or "\n" in cc or "\\" in cc for cc in comps) or q.startswith("out/") or q == "out":
+                continue
+            if any(t == q or t.startswith(q + "/") or q.startswith(t + "/") for t in tree):
+                continue
+            tree[q] = {"kind": "file", "data": "var a = 1 ;\n"}
+            if comps[0] not in tops:
+                tops.append(comps[0])
+        if not tree or any(o.startswith("-") for o in opts[1::2]):
+            continue     # (a list option is followed by another option: it takes every following word up to the next option, K51)
+        w = os.path.join(c.outdir, "patwitness%d.json" % k)
+        json.dump({"mode": "fs", "tree": tree, "argv": opts + ["-r", "--type", "js", "-o", "out/"] + tops}, open(w, "w"))
+        c.tool("clifs", ["-mode", "fs", "-witness", w], sub="patsearch%d" % k, count=False)
+        if c.new_violations:
+            break
 
 
 def run(c):
